@@ -48,8 +48,13 @@ class C05(Prop):
                 f = rng.choice(["mean", "median", "expectile", "quantile"])
                 ws = None if rng.random() < 0.4 else [Fraction(rng.randint(1, 4)) for _ in range(n)]
                 eta = rng.choice(ys) if rng.random() < 0.7 else Fraction(rng.randint(-9, 13), 2)
-                yield {"stream": "sample", "kind": "elementary", "elem_f": f, "eta": str(eta), "h": 0.0, "level": rng.choice([0.5, 0.25, 0.75, 0.125]),
-                       "y": [str(v) for v in ys], "w": None if ws is None else [str(v) for v in ws]}
+                c = {"stream": "sample", "kind": "elementary", "elem_f": f, "eta": str(eta), "h": 0.0, "level": rng.choice([0.5, 0.25, 0.75, 0.125]),
+                     "y": [str(v) for v in ys], "w": None if ws is None else [str(v) for v in ws]}
+                if rng.random() < 0.3:
+                    # counts in an unsigned / narrow integer container and eta given as a Python int (as in the class docstring)
+                    ys = [Fraction(rng.randint(0, 9)) for _ in range(n)]
+                    c.update(y=[str(v) for v in ys], eta=str(rng.randint(1, 8)), edtype=rng.choice(["uint8", "uint32", "uint64", "int8"]))
+                yield c
                 continue
             fam, hh, lve = sc.effective(kind, h, lv)
             n = rng.randint(1, 9)
@@ -106,9 +111,11 @@ class C05(Prop):
             return [float(p) for p in sorted(pts)], [float(o) for o in opt]
         ymin = float(min(ys))
         grid = []
+        if fam == "logloss":
+            pts |= {Fraction(0), Fraction(1)}  # the certain forecasts: score +inf as soon as the sample holds the other class
         for p in sorted(pts):
             pf = float(p)
-            if all(sc.in_domain(case["kind"], float(case["h"]), case["level"], float(y), pf) for y in ys):
+            if all(sc.in_domain(case["kind"], float(case["h"]), case["level"], float(y), pf) for y in ys) or (fam == "logloss" and pf in (0.0, 1.0)):
                 grid.append(pf)
         return grid, [float(o) for o in opt]
 
@@ -121,6 +128,13 @@ class C05(Prop):
             import numpy as np
             from model_diagnostics.scoring import ElementaryScore
 
+            yarr = np.array(ys)
+            if case.get("edtype"):
+                yarr = np.array([int(v) for v in ys]).astype(case["edtype"])
+                sf = ElementaryScore(eta=int(Fraction(case["eta"])), functional=case["elem_f"], level=case["level"])
+                for g in grid:
+                    out["m"].append(float(sf(yarr, np.full(len(ys), g), None if ws is None else np.array(ws))))
+                return out
             if len(ys) % 2 == 0:
                 # one scorer moved along a threshold grid: constructed at another eta, the public attribute re-assigned
                 sf = ElementaryScore(eta=float(Fraction(case["eta"])) + 1.5, functional=case["elem_f"], level=case["level"])
@@ -203,6 +217,10 @@ class C05(Prop):
         for i, g in enumerate(io["grid"]):
             a = io["m"][i] - io["m"][ref]
             b = ms[i] - ms[ref]
+            if math.isinf(io["m"][i]) or math.isinf(ms[i]) or math.isnan(io["m"][i]) or math.isnan(ms[i]):
+                if io["m"][i] == ms[i]:
+                    continue
+                return f"average score at constant {g}: {io['m'][i]!r}, model {ms[i]!r}"
             s = (max(abs(v) for v in ys) + abs(g) + 10.0) if case["kind"] == "elementary" else max(sc.scale(case["kind"], float(case["h"]), case["level"], y, c) for y in ys for c in (g, io["grid"][ref]))
             if not (abs(a - b) <= 1e-10 * s + 1e-9 * min(abs(a), abs(b))):
                 return f"average score at constant {g} minus the one at {io['grid'][ref]}: {a!r}, model {b!r}"
